@@ -1,6 +1,18 @@
 """Texts of MANIFEST.json per property."""
 
 TEXT = {
+    "C08": {
+        "level": "Exploration: generated resource sets (pools in every address notation from a small colliding v4/v6 space, nodes with internal IPs, L2/BGP advertisements with names/selectors/aggregation lengths/localprefs/peer lists) are parsed by the real config.For; every accepted configuration is compared with the harness's own netip interval arithmetic and selector evaluation (exact address sets, pairwise disjointness, node IPs, advertisement attachment, aggregate containment, localpref collisions).",
+        "design_ref": "DESIGN.md section 9",
+        "note": "Trusted: the harness's interval arithmetic; an IPv4-mapped spelling denotes the IPv4 address; only the notations of the generator grammar are judged. Rejections are not judged (the property speaks about accepted configurations).",
+        "technique": "property-based testing: generated configurations vs an independent closed-form specification (rapid)",
+    },
+    "C18": {
+        "level": "Exploration: generated cluster snapshots (valid and deliberately invalid, >=3 objects per kind, several pools pinned to one namespace) are converted by the real toConfig for the original order, 1..4 random permutations of every listed kind, and 1..3 repetitions; results are compared with reflect.DeepEqual as the reconcilers do; acceptance must agree as well.",
+        "design_ref": "DESIGN.md section 19",
+        "note": "Trusted: reflect.DeepEqual is the reconcilers' notion of 'unchanged'.",
+        "technique": "property-based testing: metamorphic relation under permutation and repetition (rapid)",
+    },
     "C16": {
         "level": "Exploration: tens of thousands (quick) to millions (thorough) of generated messages per run are encoded by the real sendOpen/sendUpdate/sendWithdraw/sendKeepalive and read back by an independent RFC 4271 decoder; generated and mutated OPEN byte strings are fed to the real readOpen through a counting reader; the thorough tier adds a coverage-guided native fuzz campaign with the same oracle. It samples the input space, it does not exhaust it.",
         "design_ref": "DESIGN.md section 17",
@@ -17,7 +29,6 @@ NOT_APPLICABLE = {
     "C05": "check not built yet (work in progress; see DESIGN.md for the planned generated-input check)",
     "C06": "check not built yet (work in progress; see DESIGN.md for the planned generated-input check)",
     "C07": "check not built yet (work in progress; see DESIGN.md for the planned generated-input check)",
-    "C08": "check not built yet (work in progress; see DESIGN.md for the planned generated-input check)",
     "C09": "check not built yet (work in progress; see DESIGN.md for the planned generated-input check)",
     "C10": "check not built yet (work in progress; see DESIGN.md for the planned generated-input check)",
     "C11": "check not built yet (work in progress; see DESIGN.md for the planned generated-input check)",
@@ -25,9 +36,7 @@ NOT_APPLICABLE = {
     "C13": "check not built yet (work in progress; see DESIGN.md for the planned generated-input check)",
     "C14": "check not built yet (work in progress; see DESIGN.md for the planned generated-input check)",
     "C15": "check not built yet (work in progress; see DESIGN.md for the planned generated-input check)",
-    "C16": "check not built yet (work in progress; see DESIGN.md for the planned generated-input check)",
     "C17": "check not built yet (work in progress; see DESIGN.md for the planned generated-input check)",
-    "C18": "check not built yet (work in progress; see DESIGN.md for the planned generated-input check)",
     "C19": "check not built yet (work in progress; see DESIGN.md for the planned generated-input check)",
     "C20": "check not built yet (work in progress; see DESIGN.md for the planned generated-input check)"
 }
